@@ -121,6 +121,13 @@ func (p *Processor) Process(ctx context.Context) error {
 				return fmt.Errorf("%x: Channel create rejected, wrong state", E_PROXY_INTERNALERROR)
 			}
 			server, port := p.channelRequest(pkt)
+			if server == "" {
+				// no or undecodable server name: dialing ":port" would connect to the gateway host itself
+				log.Printf("Channel create without a valid server name")
+				msg := p.channelResponse(E_PROXY_RAP_ACCESSDENIED)
+				p.tunnel.Write(msg)
+				return fmt.Errorf("%x: no valid server name in channel request", E_PROXY_RAP_ACCESSDENIED)
+			}
 			host := net.JoinHostPort(server, strconv.Itoa(int(port)))
 			if p.gw.CheckHost != nil {
 				log.Printf("Verifying %s host connection", host)
